@@ -151,6 +151,20 @@ func main() {
 		add("Formulas.lean", c, e)
 	}
 	{
+		pkgs := []*Pkg{root}
+		for _, sub := range []string{"schnorr", "ecckd"} {
+			os.Chdir(filepath.Join(*repo, sub))
+			sp, err := loadPkg(filepath.Join(*repo, sub), "github.com/ModChain/secp256k1/"+sub)
+			if err != nil {
+				errs = append(errs, "load "+sub+": "+err.Error())
+				continue
+			}
+			pkgs = append(pkgs, sp)
+		}
+		c, e := passShared(pkgs)
+		add("Shared.lean", c, e)
+	}
+	{
 		c, e := passCT(root)
 		add("CTGen.lean", c, e)
 	}
